@@ -163,7 +163,18 @@ def gen_trees(rng, family, n, tier):
                 out.append(('un', u1, ('un', u2, ('un', u3, x))))
     for _ in range(n):
         out.append(rand_tree(rng.choice([2, 3, 3, 4])))
-    return [t for t in out if is_expr(t)]
+
+    def formats(t):
+        # 'ab' % <expression object> / b'ab' % <expression object>: Python's formatting operator accepts any object with
+        # __getitem__ as a mapping and returns the string itself, so no expression object is ever built for this tree
+        if t[0] == 'bin':
+            if t[1] == '%' and t[2][0] == 'leaf' and not t[2][3] and t[2][1][:1] in ('"', "'", 'b'):
+                return True
+            return formats(t[2]) or formats(t[3])
+        if t[0] in ('un', 'fn'):
+            return formats(t[2])
+        return False
+    return [t for t in out if is_expr(t) and not formats(t)]
 
 
 def run(tier, seed):
